@@ -115,14 +115,16 @@ func checkC03(rep *vk.Report) {
 		if rep.Skip(idx) {
 			return
 		}
-		runBreakerHistory(rep, idx)
+		runBreakerHistory(rep, idx, "C03")
 	})
 	rep.Require("boundary_advances", 10)
 	rep.Require("histories_with_2plus_states", 10)
 }
 
-func runBreakerHistory(rep *vk.Report, idx int) {
-	r := vk.Rng(rep.Seed, "C03", idx)
+// runBreakerHistory drives one generated breaker history. prop selects the reporting property: C03 judges everything,
+// C16 only the emitted events (the other observations are C03's subject).
+func runBreakerHistory(rep *vk.Report, idx int, prop string) {
+	r := vk.Rng(rep.Seed, prop+"-brk", idx)
 	cs := brkCase{Cfg: genBreakerCfg(r)}
 	cs.HandleRes7 = r.IntN(2) == 0
 	cs.Listeners = vk.Pick(r, "gohc", "gohc", "g", "ohc", "", "o", "gh", "gc", "go", "hc")
@@ -174,7 +176,10 @@ func runBreakerHistory(rep *vk.Report, idx int) {
 	bounds := map[string]bool{}
 	modelDelayCalls := 0
 	fail := func(cat, msg string) {
-		rep.Violate(idx, "C03/"+cat+"/"+cs.Cfg.Kind, fmt.Sprintf("%s (op #%d %q; cfg %+v succ=%s listeners=%q)", msg, len(cs.Ops), cs.Ops[len(cs.Ops)-1], cs.Cfg, cs.Cfg.SuccKind, cs.Listeners), cs)
+		if prop != "C03" && cat != "events" {
+			return
+		}
+		rep.Violate(idx, prop+"/breaker-"+cat+"/"+cs.Cfg.Kind, fmt.Sprintf("%s (op #%d %q; cfg %+v succ=%s listeners=%q)", msg, len(cs.Ops), cs.Ops[len(cs.Ops)-1], cs.Cfg, cs.Cfg.SuccKind, cs.Listeners), cs)
 	}
 	nops := 20 + r.IntN(61)
 	bad := false
@@ -389,6 +394,13 @@ func runBreakerHistory(rep *vk.Report, idx int) {
 		rep.Count("events_checked", int64(len(events)))
 	}
 	rep.Eval()
+	if prop != "C03" {
+		rep.Count("breaker_histories_events_checked", 1)
+		if len(visited) >= 2 {
+			rep.Distinct(fmt.Sprintf("brk|%s|%s|%v|%s", cs.Cfg.Kind, cs.Cfg.SuccKind, visited, cs.Listeners))
+		}
+		return
+	}
 	rep.Count("ambiguous_decisions_resolved_from_observation", int64(m.Ambiguous))
 	if len(visited) >= 2 {
 		rep.Count("histories_with_2plus_states", 1)
